@@ -625,6 +625,9 @@ pub fn run(out: &mut Out, tier: &str, seed: u64, prop: &str) {
                 Some(back) => if back != got { out.oracle_fail("C01", "an environment does not survive its serde round trip", input.clone()); },
                 None => out.oracle_fail("C01", "an environment cannot be serialized and read back", input.clone()),
             }
+            if serde_json::to_value(&got).ok().and_then(|v| serde_json::from_value::<pep508_rs::MarkerEnvironment>(v).ok()).as_ref() != Some(&got) {
+                out.oracle_fail("C01", "an environment does not survive serialization to an owned JSON value", input.clone());
+            }
             for t in &probes {
                 let m = t.build();
                 if got.clone().eq(&want) && m.evaluate(&got, &c2.extras()) != m.evaluate(&want, &c2.extras()) { out.oracle_fail("C01", "equal environments evaluate differently", input.clone()); }
